@@ -21,6 +21,7 @@ mod c08;
 mod c09;
 mod c10;
 mod c11;
+mod c12;
 mod c13;
 mod c14;
 mod c15;
@@ -82,6 +83,7 @@ fn main() {
         "C09" => c09::run(&ctx, &mut rep),
         "C10" => c10::run(&ctx, &mut rep),
         "C11" => c11::run(&ctx, &mut rep),
+        "C12" => c12::run(&ctx, &mut rep),
         "C13" => c13::run(&ctx, &mut rep),
         "C14" => c14::run(&ctx, &mut rep),
         "C15" => c15::run(&ctx, &mut rep),
